@@ -52,6 +52,10 @@ type concSpec struct {
 	// batchOut: the output batches come from Batch/BatchFunc, which may flush what it holds when
 	// its source fails: before a fatal error any cut of the prefix into non-empty batches is accepted.
 	batchOut bool
+	// blocks: after its items, every source blocks in Next until its context is done (a probe with
+	// BlockAtEnd; a Pipe whose sender stays idle): the stream never ends, so every scenario has a
+	// callback fault that fires, and E must reach a consumer whose context is live.
+	blocks bool
 }
 
 func cbMap(e *env, stage int) func(context.Context, int) (int, error) {
@@ -172,12 +176,46 @@ func concSubjects() []*concSpec {
 	}
 }
 
+// concBlockSubjects: the source never ends - after its items it blocks in Next until its context is
+// done - while a callback fails on an item already handed out. The failure must interrupt the
+// blocked source read and reach the consumer.
+func concBlockSubjects() []*concSpec {
+	bg := context.Background()
+	return []*concSpec{
+		{name: "MapStream[source blocks]", nparts: 1, cbStages: []int{0}, blocks: true,
+			wire: func(e *env, s []stream.Stream[int], p concParams) (stream.Stream[int], stream.Stream[[]int]) {
+				return parallel.MapStream(bg, s[0], p.Par, p.Buf, cbMap(e, 0)), nil
+			},
+			ref: func(in []int, p concParams) []int { return evItems(refMap(in, mapFn)) }},
+		{name: "Batch(MapStream[source blocks])", nparts: 1, slices: true, batchOut: true, cbStages: []int{0}, blocks: true,
+			wire: func(e *env, s []stream.Stream[int], p concParams) (stream.Stream[int], stream.Stream[[]int]) {
+				return nil, stream.Batch(parallel.MapStream(bg, s[0], p.Par, p.Buf, cbMap(e, 0)), p.MaxWait, p.BS)
+			},
+			ref: func(in []int, p concParams) []int { return evGroups(refChunk(refMap(in, mapFn), p.BS)) }},
+		{name: "MapStream(Filter(Pipe[sender idle]))", usesPipe: true, cbStages: []int{0, 1}, blocks: true,
+			wire: func(e *env, s []stream.Stream[int], p concParams) (stream.Stream[int], stream.Stream[[]int]) {
+				return parallel.MapStream(bg, stream.Filter(s[0], cbFilter(e, 0)), p.Par, p.Buf, cbMap(e, 1)), nil
+			},
+			ref: func(in []int, p concParams) []int { return evItems(refMap(refFilter(in, keepFn), mapFn)) }},
+		{name: "MapStream(Merge(2)[inputs block])", nparts: 2, mode: modeInterleave, unmap: unmap1000, cbStages: []int{0}, blocks: true,
+			wire: func(e *env, s []stream.Stream[int], p concParams) (stream.Stream[int], stream.Stream[[]int]) {
+				return parallel.MapStream(bg, stream.Merge(s...), p.Par, p.Buf, cbMap(e, 0)), nil
+			}},
+		{name: "Merge(Map(a),b)[inputs block]", nparts: 2, mode: modeInterleave, unmap: unmap1000, cbStages: []int{0}, cbPart0: true, blocks: true,
+			wire: func(e *env, s []stream.Stream[int], p concParams) (stream.Stream[int], stream.Stream[[]int]) {
+				return stream.Merge(stream.Map(s[0], cbMap(e, 0)), s[1]), nil
+			}},
+	}
+}
+
 // pipeFeed is the sending side of a Pipe: the "source" of the Pipe subjects.
 type pipeFeed struct {
 	e       *env
 	items   []int
 	fatalAt int
 	fatalE  error
+	idle    bool          // after the items, neither send nor close until released
+	release chan struct{} // closed by the consumer side after it closed the stream
 	snd     *stream.PipeSender[int]
 	done    chan struct{}
 }
@@ -197,6 +235,10 @@ func (f *pipeFeed) run() {
 		f.e.ev('p', 'i')
 	}
 	f.e.pert.Do()
+	if f.idle {
+		f.e.ev('p', 'b')
+		<-f.release
+	}
 	if f.fatalAt >= 0 {
 		f.e.noteInjected(f.fatalE, true)
 		f.e.ev('p', 'e')
@@ -298,12 +340,14 @@ func (cr *concRun) exec(rnd *vkit.Rand) (verdict vkit.AwaitVerdict, dump string)
 	var feed *pipeFeed
 	if spec.usesPipe {
 		all := refConcat(cr.parts)
-		feed = &pipeFeed{e: e, items: copyInts(all), fatalAt: -1, done: make(chan struct{})}
+		feed = &pipeFeed{e: e, items: copyInts(all), fatalAt: -1, done: make(chan struct{}), idle: spec.blocks, release: make(chan struct{})}
 		e.srcs = append(e.srcs, &srcInfo{name: "pipe-sender", nItems: len(all),
 			setFatal: func(p int, E error) { feed.fatalAt, feed.fatalE = p, E }, setTransient: func(int) {}})
 	} else {
 		for j := range cr.parts {
-			srcs = append(srcs, newSrc(e, fmt.Sprintf("src%d", j), copyInts(cr.parts[j]), true, nil))
+			w := newSrc(e, fmt.Sprintf("src%d", j), copyInts(cr.parts[j]), true, nil)
+			w.p.BlockAtEnd = spec.blocks
+			srcs = append(srcs, w)
 		}
 	}
 	plan, fatal := e.apply(cr.fs)
@@ -373,6 +417,7 @@ func (cr *concRun) consume(e *env, srcs []stream.Stream[int], feed *pipeFeed, pl
 		}
 		cr.phase.Store(2)
 		if feed != nil {
+			close(feed.release)
 			<-feed.done
 		}
 		cr.phase.Store(3)
@@ -419,6 +464,7 @@ loop:
 	cr.phase.Store(2)
 	stp.close()
 	if feed != nil {
+		close(feed.release)
 		<-feed.done
 	}
 	cr.phase.Store(3)
@@ -835,6 +881,46 @@ func concurrent(r *vkit.Report) {
 				if ok(a, b, d) {
 					cfgs = append(cfgs, prepared{cfg: concCfg{si, n, []fault{a, b, d}}, parts: parts})
 				}
+			}
+		}
+	}
+	// Sources that block instead of ending: every configuration has a callback fault that fires
+	// (classes 1 and 2 only, so Filter keeps every item).
+	for _, spec := range concBlockSubjects() {
+		subs = append(subs, spec)
+		si := len(subs) - 1
+		for n := 1; n <= maxLen; n++ {
+			rnd := r.Rand("conc-block-cfg", si, n)
+			cl := make([]int, n)
+			for i := range cl {
+				cl[i] = 1 + rnd.Intn(2)
+			}
+			in := makeInput(n, cl, true)
+			np := spec.nparts
+			if spec.usesPipe {
+				np = 1
+			}
+			parts := concParts(in, np, rnd)
+			lim := n
+			if spec.cbPart0 {
+				lim = len(parts[0])
+			}
+			var fatals []fault
+			for _, k := range spec.cbStages {
+				for p := 0; p < lim; p++ {
+					fatals = append(fatals, mkFatal(fkFatalCb, k, p, 0))
+					cfgs = append(cfgs, prepared{cfg: concCfg{si, n, []fault{fatals[len(fatals)-1]}}, parts: parts})
+				}
+				for ek := 1; ek < nFatalErrKinds; ek++ {
+					for _, p := range fewPositions(lim, false) {
+						cfgs = append(cfgs, prepared{cfg: concCfg{si, n, []fault{mkFatal(fkFatalCb, k, p, ek)}}, parts: parts, half: true})
+					}
+				}
+			}
+			for t := 0; t < 6 && len(fatals) > 0; t++ {
+				f := fatals[rnd.Intn(len(fatals))]
+				g := mkFault([]faultKind{fkCtxDead, fkCtxExpiring}[rnd.Intn(2)], 0, rnd.Intn(n+1))
+				cfgs = append(cfgs, prepared{cfg: concCfg{si, n, []fault{f, g}}, parts: parts})
 			}
 		}
 	}
